@@ -973,6 +973,20 @@ func c05PostfixOnBuiltin(c *core.Ctx) {
 		var err error
 		if t == "Q" {
 			err = e.pb.RegisterPostfixOperator(e.regType("Q"), mkPostfix)
+		} else if strings.HasPrefix(t, "Z:") {
+			// a plugin token that is given an infix role as well (before or after the postfix one): both
+			// registrations are accepted; its postfix uses are call-level suffixes all the same
+			ty := e.regType("Z")
+			lvl := int(t[4] - '0')
+			if t[2] == 'i' {
+				err = e.pb.RegisterInfixOperator(ty, lvl, mkInfix)
+			}
+			if err == nil {
+				err = e.pb.RegisterPostfixOperator(ty, mkPostfix)
+			}
+			if err == nil && t[2] == 'p' {
+				err = e.pb.RegisterInfixOperator(ty, lvl, mkInfix)
+			}
 		} else {
 			err = e.pb.RegisterPostfixOperator(punctType[t], mkPostfix)
 		}
@@ -982,7 +996,8 @@ func c05PostfixOnBuiltin(c *core.Ctx) {
 		return e, ""
 	}
 	ref, _ := mk("Q")
-	for ti, t := range binary {
+	subjects := append(append([]string{}, binary...), "Z:i:3", "Z:p:3", "Z:i:7", "Z:p:7", "Z:p:9")
+	for ti, t := range subjects {
 		if !c.Mine(int64(ti)) || c.Tick() {
 			continue
 		}
@@ -1008,10 +1023,14 @@ func c05PostfixOnBuiltin(c *core.Ctx) {
 				}
 				has := false
 				sub := make([]string, len(toks))
+				spell := t
+				if strings.HasPrefix(t, "Z:") {
+					spell = "Z"
+				}
 				for i, x := range toks {
 					sub[i] = x
 					if x == "Q" {
-						sub[i] = t
+						sub[i] = spell
 						has = true
 					}
 					if x == t {
@@ -1032,7 +1051,7 @@ func c05PostfixOnBuiltin(c *core.Ctx) {
 					}
 					return
 				}
-				g2 = strings.ReplaceAll(g2, "(cpost Q ", "(cpost "+t+" ")
+				g2 = strings.ReplaceAll(g2, "(cpost Q ", "(cpost "+spell+" ")
 				k, d := "", ""
 				if (e1 == "") != (e2 == "") {
 					k, d = "postfix-on-builtin-acceptance", fmt.Sprintf("%q with a postfix operator registered on %s: error %q; the same string with a custom postfix token: error %q", strings.Join(sub, " "), t, e1, e2)
@@ -1147,7 +1166,7 @@ func c05Replay(pl json.RawMessage) (string, []core.Violation) {
 func init() {
 	core.Register(&core.PropSpec{
 		ID: "C05", Level: "model_checking",
-		Rule:     "(a) grouping: plugin tokens X,Y (infix), P (prefix), Q (postfix) registered through the public builders; for every level 1..13 of X (x level 7 of Y quick; x every level of Y thorough) every flat operator string x o y o z (and x o y o z o w thorough) over the 16 built-in binary/assignment operators + X + Y, undecorated and with every single decoration of every operand by a prefix {-,!,++,P} and/or suffix {++,Q,(),.p,[1],(d)}, is parsed by the real parser and compared with the precedence-climbing reference R-prec (infix level L = left-associative at L, prefix operand at unary level, postfix at call level, assignment right-associative, targets must be assignable); plus a substitution oracle: X at a level that has a built-in binary operator groups exactly like that operator. (b) registry: every history <= depth 4 (5 thorough) over 25 calls {RegisterTokenType x3, RegisterPrefix/Infix(2 levels)/Postfix on two custom tokens and on + ! ++ (} on one builder pair, calls on custom tokens enabled once their type is registered, replayed on fresh builders in lock-step with the registry model R-reg: ids stable per name, distinct across names, above every built-in id; occupied role => error, free role => no error; after every step a probe set of 38 inputs parses to what R-prec predicts for the MODEL's table (so a refused registration provably left the parser unchanged; from depth 4 on, the probes that mention the token of the last call). states = distinct registry model states, transitions = history steps executed on the real builders; non-trivial = operator string in which a plugin operator has a built-in operator within two tokens (every string is distinct) Added: a parser is built and a mini probe set parsed between any two registrations of every history; probes on tokens holding a prefix and a postfix/infix role; operators registered after k in {1,15..17,31..33,63..65,127..129,255..257,1000} other token types; long flat operator strings of 9..257 operators over 5 operator cycles; layout x mode family: X at every level, operator strings with <= 2 operators over {X,+,*,==,=,||} and every single decoration, a line break before and/or after every X, in each of the 4 parser modes: same acceptance and grouping as on one line, and as the built-in operator of the level in the same layout; postfix operator registered on each of the 13 built-in binary operator tokens: every operator string (<= 2 operators, every decoration) that uses the token in postfix position only parses like the same string with a custom postfix token.",
+		Rule:     "(a) grouping: plugin tokens X,Y (infix), P (prefix), Q (postfix) registered through the public builders; for every level 1..13 of X (x level 7 of Y quick; x every level of Y thorough) every flat operator string x o y o z (and x o y o z o w thorough) over the 16 built-in binary/assignment operators + X + Y, undecorated and with every single decoration of every operand by a prefix {-,!,++,P} and/or suffix {++,Q,(),.p,[1],(d)}, is parsed by the real parser and compared with the precedence-climbing reference R-prec (infix level L = left-associative at L, prefix operand at unary level, postfix at call level, assignment right-associative, targets must be assignable); plus a substitution oracle: X at a level that has a built-in binary operator groups exactly like that operator. (b) registry: every history <= depth 4 (5 thorough) over 25 calls {RegisterTokenType x3, RegisterPrefix/Infix(2 levels)/Postfix on two custom tokens and on + ! ++ (} on one builder pair, calls on custom tokens enabled once their type is registered, replayed on fresh builders in lock-step with the registry model R-reg: ids stable per name, distinct across names, above every built-in id; occupied role => error, free role => no error; after every step a probe set of 38 inputs parses to what R-prec predicts for the MODEL's table (so a refused registration provably left the parser unchanged; from depth 4 on, the probes that mention the token of the last call). states = distinct registry model states, transitions = history steps executed on the real builders; non-trivial = operator string in which a plugin operator has a built-in operator within two tokens (every string is distinct) Added: a parser is built and a mini probe set parsed between any two registrations of every history; probes on tokens holding a prefix and a postfix/infix role; operators registered after k in {1,15..17,31..33,63..65,127..129,255..257,1000} other token types; long flat operator strings of 9..257 operators over 5 operator cycles; layout x mode family: X at every level, operator strings with <= 2 operators over {X,+,*,==,=,||} and every single decoration, a line break before and/or after every X, in each of the 4 parser modes: same acceptance and grouping as on one line, and as the built-in operator of the level in the same layout; postfix operator registered on each of the 13 built-in binary operator tokens: every operator string (<= 2 operators, every decoration) that uses the token in postfix position only parses like the same string with a custom postfix token; the same for a plugin token that holds an infix role (levels 3, 7, 9) and a postfix role, registered in either order.",
 		Assume:   []string{"a token that holds a postfix and an infix role at once: only its postfix uses are constrained (call-level suffix); registry probes that would use such a token as infix are skipped, postfix on ( is not in the alphabet", "plugin createExpr callbacks always request their operand"},
 		QuickSec: 240, ThorSec: 1800, Run: c05Run, Replay: c05Replay,
 		Evals: "grouping_cases", Nontriv: "cases_mixing_plugin_and_builtin_operators", States: "registry_states", Trans: "registry_transitions",
